@@ -317,7 +317,15 @@ fn insert_nonbridge(items: &mut Vec<Item>, rng: &mut Rng, names: &[String], dept
         let mname = syn::Ident::new(&format!("verif_shadow_{}", c), proc_macro2::Span::call_site());
         let shadow = if names.is_empty() { "VerifNothing".to_string() } else { names[rng.below(names.len() as u32) as usize].clone() };
         let sident = syn::Ident::new(&shadow, proc_macro2::Span::call_site());
-        let item: Item = match rng.below(6) {
+        let sident_path: syn::Type = parse_quote! { u8 };
+        let uname = syn::Ident::new(&format!("VerifUse{}", c), proc_macro2::Span::call_site());
+        let item: Item = match rng.below(10) {
+            6 => parse_quote! { #[doc = "verif_nonbridge"] pub use core::fmt::Debug as #uname; },
+            // a nested non-bridge module holding a unit struct called `Config` (the name the crates use for
+            // their #[diplomat::config] carrier) and items with look-alike attributes
+            7 => parse_quote! { #[doc = "verif_nonbridge"] pub mod #mname { #[derive(Clone, Copy)] #[allow(dead_code)] pub struct Config; #[cfg_attr(test, allow(unused))] pub fn lib_name() -> &'static str { "verif_other_lib" } } },
+            8 => parse_quote! { #[doc = "verif_nonbridge"] #[allow(non_camel_case_types)] pub struct #fname<'a> { pub r: &'a #sident_path } },
+            9 => parse_quote! { #[doc = "verif_nonbridge"] pub mod #mname { pub mod ffi { pub struct #sident(pub u8); impl #sident { pub fn new() -> Self { Self(0) } } } } },
             0 => parse_quote! { #[doc = "verif_nonbridge"] pub fn #fname(x: u32) -> u32 { x.wrapping_mul(3) } },
             1 => parse_quote! { #[doc = "verif_nonbridge"] pub const #cname: u32 = 17; },
             // a same-named type in a non-bridge module
